@@ -135,6 +135,7 @@ func c01Body(cfg c01Cfg, sc c01Scn, res *string) func(x *sched.Exec) {
 		var results []string
 		firstShutdownAt := -1 // step at which the first Shutdown call was made
 		shutdownCalls := 0
+		shutdownFailedBefore := false // an earlier Shutdown call had already returned an error (cut short by its context)
 		checkFlush := func(what string, calledAt int, err error) {
 			results = append(results, fmt.Sprintf("%s=%v", what, err))
 			if err != nil {
@@ -152,7 +153,11 @@ func c01Body(cfg c01Cfg, sc c01Scn, res *string) func(x *sched.Exec) {
 				}
 			}
 			if what == "Shutdown" && shutdownCalls > 1 {
-				what = "repeated Shutdown while an earlier Shutdown had not completed"
+				if shutdownFailedBefore {
+					what = "repeated Shutdown while an earlier Shutdown had not completed"
+				} else {
+					what = "Shutdown overlapping a Shutdown that is still in progress"
+				}
 			}
 			if what == "ForceFlush" && firstShutdownAt >= 0 {
 				what = "ForceFlush overlapping or following a Shutdown call"
@@ -222,6 +227,9 @@ func c01Body(cfg c01Cfg, sc c01Scn, res *string) func(x *sched.Exec) {
 				shutdownCalls++
 				err := bsp.Shutdown(context.Background())
 				checkFlush("Shutdown", at, err)
+				if err != nil {
+					shutdownFailedBefore = true
+				}
 				if err == nil {
 					e.closedOK = true
 				}
@@ -235,6 +243,9 @@ func c01Body(cfg c01Cfg, sc c01Scn, res *string) func(x *sched.Exec) {
 				shutdownCalls++
 				err := bsp.Shutdown(ctx)
 				checkFlush("Shutdown", at, err)
+				if err != nil {
+					shutdownFailedBefore = true
+				}
 				if err == nil {
 					e.closedOK = true
 				}
@@ -271,12 +282,13 @@ func c01Scenarios(thorough bool) []c01Scn {
 		{"S5", [][]string{{"E:s1", "E:s2", "Fc"}}, []string{"S"}},
 		{"S7", [][]string{{"E:s1", "U:u1", "E:s2"}, {"E:s3"}}, []string{"F", "S"}},
 		{"R1", [][]string{{"RE:s1", "RE:s2"}, {"PF"}}, []string{"PS"}}, // real provider, real spans
+		{"S6", [][]string{{"S"}, {"S"}, {"E:s1"}}, nil},
+		{"S11", [][]string{{"E:s1", "E:s2", "E:s3", "S"}}, nil}, // sequential: several batches left to the shutdown drain
 	}
 	if thorough {
 		s = append(s,
 			c01Scn{"S2", [][]string{{"E:s1", "F", "E:s2"}, {"E:s3"}}, []string{"S"}},
 			c01Scn{"S4", [][]string{{"E:s1"}, {"F"}, {"S"}}, nil},
-			c01Scn{"S6", [][]string{{"S"}, {"S"}, {"E:s1"}}, nil},
 			c01Scn{"S8", [][]string{{"E:s1", "E:s2", "E:s3"}, {"F"}, {"F"}}, []string{"S"}},
 			c01Scn{"S9", [][]string{{"E:s1", "E:s2"}, {"Sc"}}, []string{"S"}},
 		)
@@ -286,7 +298,7 @@ func c01Scenarios(thorough bool) []c01Scn {
 
 func c01Configs(thorough bool) []c01Cfg {
 	c := []c01Cfg{
-		{1, 1, false, false}, {2, 1, false, false}, {2, 2, false, true}, {1, 1, true, false}, {3, 2, false, false},
+		{1, 1, false, false}, {2, 1, false, false}, {2, 2, false, true}, {1, 1, true, false}, {3, 2, false, false}, {3, 1, false, true},
 	}
 	if thorough {
 		c = append(c, c01Cfg{2, 2, false, false}, c01Cfg{2, 2, true, true}, c01Cfg{1, 1, false, true}, c01Cfg{3, 2, true, false}, c01Cfg{4, 3, false, true})
